@@ -1,11 +1,13 @@
 #!/bin/bash
 # Runs every kept seed against the quick check of the property it breaks (scratch copy of /repo);
 # prints DETECTED / MISSED per seed.  usage: tools/check_seeds.sh [name-filter] [stream k of n: K N]
+# SKIP_FILE=<file with one seed name per line> leaves those seeds out (resuming an interrupted run).
 cd "$(dirname "$0")/.."
 k=${2:-0}; n=${3:-1}; i=0
 for d in seeded/*${1:-}*/; do
-  i=$((i+1)); if [ $((i % n)) -ne $k ]; then continue; fi
   name=$(basename $d)
+  if [ -n "${SKIP_FILE:-}" ] && grep -qx "$name" "$SKIP_FILE"; then continue; fi
+  i=$((i+1)); if [ $((i % n)) -ne $k ]; then continue; fi
   prop=$(/venv/bin/python -c "import json;m=json.load(open('$d/meta.json'));print(m.get('check_with') or m['property_broken'])")
   out=$(tools/try_seed.sh $d/patch.diff quick $prop 2>&1 | head -1)
   if echo "$out" | grep -q "rc=1"; then echo "DETECTED $name by $prop: $(echo $out | cut -c1-160)"; else echo "MISSED   $name by $prop: $out"; fi
